@@ -185,6 +185,21 @@ def main():
         except Exception as e:
             extras.append(dict(name=getattr(fn, "__name__", "extra"), status="checker-error", error=str(e)))
 
+    # engine self-test on every run: pyvc's encoding of Python against CPython on random inputs (selftest/crosscheck.py);
+    # a disagreement means the generator is unsound - a checker error, not a property violation
+    try:
+        import subprocess
+        n = "60" if a.tier == "thorough" else "10"
+        cp = subprocess.run([sys.executable, os.path.join(HERE, "selftest", "crosscheck.py"), "--n", n], capture_output=True, text=True, timeout=1200)
+        cc = json.loads(cp.stdout.strip().splitlines()[-1])
+        extras.append(dict(name="generator-cross-check-against-CPython", bounded=True, bound=cc["bound"],
+                           status="ok" if not cc["failures"] else "checker-error",
+                           error=None if not cc["failures"] else "pyvc and CPython disagree: %r" % (cc["failures"][:3],),
+                           stats=dict(functions=cc["functions"], evaluations=cc["evaluations"], inconclusive=cc["inconclusive"]),
+                           note="bounded self-test of the VC generator's encoding; says nothing about the property"))
+    except Exception as e:      # noqa
+        extras.append(dict(name="generator-cross-check-against-CPython", bounded=True, status="checker-error", error="%s: %s" % (type(e).__name__, e)))
+
     known = [k for k in load_known() if k["property"] == a.prop]
     total = discharged = 0
     failed, undecided, errors, unsupported = [], [], [], []
